@@ -8,4 +8,7 @@ cp /repo/go.sum go.sum
 tmp="$(mktemp -d /var/tmp/verif-setup-XXXXXX)"
 trap 'rm -rf "$tmp"' EXIT
 go build -o "$tmp/vcheck" ./cmd/vcheck
+(cd vinstr && go build -o "$tmp/vinstr" .)
+"$tmp/vinstr" -dir /repo -out "$tmp/ov" mellium.im/xmpp mellium.im/xmpp/ibb mellium.im/xmpp/muc mellium.im/xmpp/receipts mellium.im/xmpp/history mellium.im/xmpp/blocklist mellium.im/xmpp/disco mellium.im/xmpp/internal/stream
+go build -overlay "$tmp/ov/overlay.json" -o "$tmp/vcheck-vs" ./cmd/vcheck
 "$tmp/vcheck" list
